@@ -144,7 +144,7 @@ def merge_arithmetic(check: Check, repo: Repo, tier: str = "quick") -> None:
     total = 0
     seen: dict[str, tuple[str, str]] = {}
     for nr, ns, grid in plans:
-        n, bad = check_char_class(fn, construct, nr, ns, grid)
+        n, bad = check_char_class(fn, construct, nr, ns, grid, repo, CHOICE_REL)
         total += n
         for kind, desc, detail in bad:
             seen.setdefault(kind, (desc, detail))
